@@ -346,9 +346,25 @@ class Program:
             kind = "evo_aspirate"
         elif intent == "reject.overflow":
             kind = "evo_dispense"
-        elif intent == "reject.oversize":
+        oversize = intent == "reject.oversize"
+        if oversize:
             intent = "ok"
-        return g.gen_evo(sess, kind, intent=intent, canonical=rng.random() < 0.85)
+        op = g.gen_evo(sess, kind, intent=intent, canonical=rng.random() < 0.85)
+        if oversize:
+            # one tip's volume above the worklist's max_volume (whether the labware limits allow it or not)
+            from ..sim.geom import dec, enc
+            v = dec(op["volumes"])
+            big = float(g.wl_max * rng.choice([1.5, 1.01, 3]) + 0.25)
+            if isinstance(v, list):
+                v[rng.randrange(len(v))] = big
+            else:
+                v = big
+            op["volumes"] = enc(v)
+            op["intent"] = "reject.oversize"
+        if isinstance(op["volumes"], list) and rng.random() < (0.4 if oversize else 0.05):
+            # per-tip volumes as a tuple / ndarray: an argument form the library refuses (ValueError)
+            op["vform"] = rng.choice(["tuple", "ndarray"])
+        return op
 
     def source(self, i, sess):
         rng = self.rng
